@@ -253,6 +253,15 @@ SwCylinderLoopsA(A) ==
 SwCylinderLoops == UNION {SwCylinderLoopsA(A) : A \in {1, 25}}
 \* --- CylinderSegment: case surfaces r = r_i (everywhere), phi = phi_j + n pi (both half planes), z = z_k (everywhere), axis
 SwSegDim(A) == <<2 * A, 4 * A, 4 * A, 1, 7>>            \* 15 .. 105 degrees; switch half planes at 15, 105, 195, 285 degrees
+SegAngleAliases ==
+  UNION {{CylCell(Nm("CylinderSegment", q[1], "section angles " \o ToString(d[4] * 15) \o ".." \o ToString(d[5] * 15)), <<Seg(d, IdM, Zero3, P1)>>, CylChart(IdM, Zero3), q[2], q[3], q[4])
+           : q \in {<<"phi=phi2 across the face", <<2 * A + 1, 2 * A + 3>>, <<2, 5>>, Iv("in", -2 * A, 2 * A, 1)>>,
+                    <<"phi=phi1 across the face", <<2 * A + 1, 2 * A + 3>>, <<-5, -2>>, Iv("in", -2 * A, 2 * A, 1)>>,
+                    <<"inside the wedge", <<2 * A + 1, 2 * A + 3>>, <<-1, 2>>, Iv("in", -2 * A, 2 * A, 1)>>,
+                    <<"r=r1, phi=phi2 across the inner corner", <<2 * A - 1, 2 * A + 2>>, <<2, 5>>, Iv("in", -2 * A, 2 * A, 1)>>,
+                    <<"opposite half plane", <<2 * A + 1, 2 * A + 3>>, <<8, 11>>, Iv("in", -2 * A, 2 * A, 1)>>},
+             d \in {<<2 * A, 4 * A, 4 * A, -27, -21>>, <<2 * A, 4 * A, 4 * A, 21, 27>>, <<2 * A, 4 * A, 4 * A, -51, -45>>}}
+         : A \in {2}}
 SwSegment ==
   UNION {{CylCell(Nm("CylinderSegment", q[1], q[2]), <<Seg(SwSegDim(A), IdM, Zero3, P1)>>, CylChart(IdM, Zero3), q[3], q[4], q[5])
            : q \in {<<"r=r1, phi=phi2", "across the inner corner", <<2 * A - 1, 2 * A + 2>>, <<6, 9>>, Iv("in", -2 * A, 2 * A, 1)>>,
@@ -261,6 +270,9 @@ SwSegment ==
                     <<"z=z2 extension", "outside r2", <<4 * A + 1, 4 * A + 3>>, <<3, 5>>, Iv("hi", -2 * A, 2 * A, 1)>>,
                     <<"r=r1 extension", "inside the bore", <<2 * A - 1, 2 * A + 2>>, <<9, 11>>, Iv("out", -2 * A, 2 * A, 1)>>}}
          : A \in IF Thorough THEN {2, 20} ELSE {2}}
+  \* section angles given beyond +-360 degrees and STRADDLING them (valid input: only phi2 - phi1 <= 360 is demanded): -405..-315 and 315..405
+  \* degrees are both the wedge -45..45 degrees; cells across its two faces, across the inner corner, inside and in the opposite half plane
+  \cup SegAngleAliases
 SwSegmentLoops ==
   UNION {{Circ(Nm("CylinderSegment", "all r/z case surfaces", "loop"), <<Seg(SwSegDim(A), IdM, Zero3, P2)>>, CylChart(IdM, Zero3), CoordRect(2, f, <<-3 * A, 4 * A>>, <<A, 5 * A>>)),
           Circ(Nm("CylinderSegment", "all phi case surfaces", "loop"), <<Seg(SwSegDim(A), IdM, Zero3, P2)>>, CylChart(IdM, Zero3), Ring(3 * A, z)),
@@ -363,7 +375,7 @@ AxisTubes == UNION {TubeCells("Circle", Cir(A, IdM, Zero3, 2), {A, -3 * A}) \cup
                     \cup TubeCells("CylinderSegment", Seg(<<A, 3 * A, 4 * A, 0, 6>>, IdM, Zero3, P1), {-1, 3 * A})
                     \cup TubeCells("Dipole", Dip(Rz90, <<1, 2, 3>>, P1), {A, -2 * A})
                     \cup TubeCells("Sphere", Sph(A, Ry90, Zero3, P1), {3 * A}) : A \in {500, 5000}}
-ThinCells == SlabBox \cup SlabTetra \cup SlabCurved \cup AxisTubes
+ThinCells == SlabBox \cup SlabTetra \cup SlabCurved \cup AxisTubes \cup SegAngleAliases
 
 (* ============================================================ mean-value law at points ON the special sets (C01) *)
 \* points exactly on an axis / centre line / switch plane / segment extension line, in free space, with their six lattice neighbours
